@@ -259,9 +259,13 @@ structure Spec where
   invalidToken : Int
   /-- `SpaceActions` (rule ids, or token ids when inlined). -/
   spaceActions : List Int
-  /-- `Lexer.ClassActions`: action ↦ generated switch. -/
-  classActions : List (Int × StringSwitch)
+  /-- `Lexer.ClassActions`: action ↦ `Custom` (keyword text ↦ action). -/
+  classActions : List (Int × List (List UInt8 × Int))
 deriving Repr, Inhabited
+
+/-- The hash function `asStringSwitch` is instantiated with for this grammar: `stringHash`
+(over runes; over bytes for a byte-mode lexer once fixes/C11-bytes-hash.diff is applied). -/
+def genHash (sp : Spec) : List UInt8 → Nat := stringHash (sp.v.hashFix && sp.opts.scanBytes)
 
 /-- The generated `type Lexer struct`. -/
 structure Lexer where
@@ -386,7 +390,7 @@ def Lexer.text (l : Lexer) : List UInt8 := slice l.source l.tokenOffset l.offset
 def classSwitch (sp : Spec) (act : Int) (hash : Nat) (text : List UInt8) : Int :=
   match sp.classActions.find? (·.1 == act) with
   | none => act
-  | some (_, sw) => (sw.lookup hash text).getD act
+  | some (_, m) => ((asStringSwitch (genHash sp) m).lookup hash text).getD act
 
 /-- `tok := tmToken[rule]`, or the action itself when rule ids are inlined. -/
 def tokenOf (sp : Spec) (act : Int) : Option Int :=
@@ -481,5 +485,254 @@ def tokenize (sp : Spec) : Nat → Lexer → Option (List Tok)
     | some (tok, l) =>
       if tok = 0 then some [observe tok l]
       else (tokenize sp n l).map (observe tok l :: ·)
+
+/-! ## Specification level: tokenization in terms of `Tables.Scan` -/
+
+/-- The action value that means "no match": rule 0, or the `invalid_token` id when rule ids were
+replaced by token ids (`compiler/lexer.go: canInlineRules`). -/
+def invalidAct (sp : Spec) : Int :=
+  match sp.ruleToken with
+  | none => sp.invalidToken
+  | some _ => 0
+
+/-- `LexTables.scanLoop` (the body of `lex.Tables.Scan`) with the "no match" action as a parameter:
+`inv = 0` is `Tables.Scan` itself (`scanLoopG_zero`); inlined tables use `inv = invalid_token`. -/
+def scanLoopG (t : Tables) (inv : Int) : List (Int × Nat) → Nat → Int → Nat → Int → Option (Nat × Int)
+  | [], index, state, size, action =>
+    match getI t.dfa (state * t.numSymbols) with
+    | none => none
+    | some st =>
+      if actionStart t - inv = st ∧ size > 0 then some (size, action)
+      else some (index, actionStart t - st)
+  | (r, w) :: rest, index, state, size, action =>
+    let start := index
+    let index := index + w
+    match symOf t r with
+    | none => none
+    | some ch =>
+      match getI t.dfa (state * t.numSymbols + ch) with
+      | none => none
+      | some st =>
+        if st < 0 then
+          if st > actionStart t then
+            match getI t.backtrack (-1 - st) with
+            | none => none
+            | some bt => scanLoopG t inv rest index bt.nextState start bt.action
+          else if actionStart t - inv = st ∧ size > 0 then some (size, action)
+          else some (start, actionStart t - st)
+        else scanLoopG t inv rest index st size action
+
+/-- `Tables.Scan(start, text)` generalised in the "no match" action. -/
+def scanG (t : Tables) (inv : Int) (scanBytes : Bool) (start : Int) (text : List UInt8) : Option (Nat × Int) :=
+  match getI t.stateMap start with
+  | none => none
+  | some st => scanLoopG t inv (decodeAll scanBytes text.length text) 0 st 0 0
+
+/-- The start condition index `Next` scans with. -/
+def startIndex (sp : Spec) (state : Int) : Int := if sp.multiState then state else 0
+
+/-- Keyword specialisation of a `(class)` rule by the matched TEXT (no hashing). -/
+def classSpec (sp : Spec) (act : Int) (text : List UInt8) : Int :=
+  match sp.classActions.find? (·.1 == act) with
+  | none => act
+  | some (_, m) => (mapLookup m text).getD act
+
+inductive SpecOutcome where
+  | restart (off : Nat)
+  | token (tok : Int) (start stop : Nat)
+deriving Repr, Inhabited, DecidableEq
+
+/-- What one pass of `Next` must do at offset `off` in start condition `state`:
+scan; no match → `invalid_token` over the scanned prefix, over ONE character when the prefix is
+empty, EOI at the end of the input; a match → the keyword of a class rule, space rules restart. -/
+def specOnce (sp : Spec) (src : List UInt8) (state : Int) (off : Nat) : Option SpecOutcome :=
+  match scanG sp.t (invalidAct sp) sp.opts.scanBytes (startIndex sp state) (src.drop off) with
+  | none => none
+  | some (size, act) =>
+    if isInvalid sp act then
+      match tokenOf sp act with
+      | none => none
+      | some tok =>
+        if size = 0 then
+          match src.drop off with
+          | [] => some (.token 0 off off)
+          | b :: rest => some (.token tok off (off + (readChar sp.opts.scanBytes (b :: rest)).2))
+        else some (.token tok off (off + size))
+    else
+      let act := classSpec sp act (slice src off (off + size))
+      match tokenOf sp act with
+      | none => none
+      | some tok =>
+        if sp.spaceActions.contains act then some (.restart (off + size))
+        else some (.token tok off (off + size))
+
+def specNextLoop (sp : Spec) (src : List UInt8) (state : Int) : Nat → Nat → Option (Int × Nat × Nat)
+  | 0, _ => none
+  | fuel + 1, off =>
+    match specOnce sp src state off with
+    | none => none
+    | some (.restart off') => specNextLoop sp src state fuel off'
+    | some (.token tok a b) => some (tok, a, b)
+
+/-- The token `Next` must return when called at offset `off`: `(tok, start, end)`. -/
+def specNext (sp : Spec) (src : List UInt8) (state : Int) (off : Nat) : Option (Int × Nat × Nat) :=
+  specNextLoop sp src state (src.length - off + 2) off
+
+/-- Documented positions of a token starting at `start`: line `1 + #newlines before`, column
+`bytes since the last newline + 1`. -/
+def specTok (sp : Spec) (src : List UInt8) (tok : Int) (a b : Nat) : Tok :=
+  ⟨tok, a, b, if sp.opts.tokenLine then 1 + (countNL (src.take a) : Int) else 1,
+   if sp.opts.tokenColumn then (a : Int) - (lineStart src a : Int) + 1 else 1⟩
+
+/-- The documented token sequence of a whole input (until EOI or `n` tokens). -/
+def specTokenize (sp : Spec) (src : List UInt8) (state : Int) : Nat → Nat → Option (List Tok)
+  | 0, _ => some []
+  | n + 1, off =>
+    match specNext sp src state off with
+    | none => none
+    | some (tok, a, b) =>
+      if tok = 0 then some [specTok sp src tok a b]
+      else (specTokenize sp src state n b).map (specTok sp src tok a b :: ·)
+
+/-- Offset of the first token: after the byte-order mark. -/
+def startOffset (o : Opts) (src : List UInt8) : Nat := if o.skipBOM && src.take 3 == bom then 3 else 0
+
+/-! ## Decidable well-formedness (`TablesWF`) -/
+
+/-- Following the EOI column from `state` (checkpoints included) reaches a final action within
+`fuel` steps: the action reached. -/
+def eoiChain (t : Tables) : Nat → Int → Option Int
+  | 0, _ => none
+  | fuel + 1, state =>
+    match getI t.dfa (state * t.numSymbols) with
+    | none => none
+    | some st =>
+      if st ≤ actionStart t then some (actionStart t - st)
+      else if st < 0 then
+        match getI t.backtrack (-1 - st) with
+        | none => none
+        | some bt => eoiChain t fuel bt.nextState
+      else eoiChain t fuel st
+
+/-- An action value the tables can deliver is usable: in range of `tmToken`, and its token is not EOI
+unless the rule is a space rule or has hand-written code (`exempt`). -/
+def actOk (sp : Spec) (exempt : List Int) (a : Int) : Bool :=
+  decide (0 ≤ a) && !isInvalid sp a &&
+  match tokenOf sp a with
+  | none => false
+  | some tok => tok != 0 || sp.spaceActions.contains a || exempt.contains a
+
+def startStates (sp : Spec) : List Int :=
+  if sp.multiState then sp.t.stateMap.toList else (sp.t.stateMap.toList.take 1)
+
+/-- Row of a start state: no checkpoint, no accepting action on a character, EOI → "no match"
+(or a rule with hand-written code). -/
+def startRowOk (sp : Spec) (exempt : List Int) (s : Int) : Bool :=
+  let ns := sp.t.numSymbols.toNat
+  let inv := actionStart sp.t - invalidAct sp
+  ((List.range ns).all fun c =>
+    if c = 0 then true
+    else match getI sp.t.dfa (s * sp.t.numSymbols + c) with
+      | none => false
+      | some e => decide (0 ≤ e) || e == inv) &&
+  (match eoiChain sp.t (numStates sp.t + 1) s with
+   | none => false
+   | some a => a == invalidAct sp || exempt.contains a)
+
+def classMapInRange (cm : ClassMap) (ns : Int) : Bool :=
+  let ok := fun (x : Int) => decide (0 ≤ x) && decide (x < ns)
+  cm.runeClass.all ok && ok cm.lastTarget &&
+  cm.ranges.all fun r => ok r.defaultVal && r.vals.all ok
+
+def keysNodup : List (List UInt8 × Int) → Bool
+  | [] => true
+  | (k, _) :: rest => !(rest.any (·.1 == k)) && keysNodup rest
+
+/-- `TablesWF`: decidable, evaluated by the drivers on every real table (all five shipped lexers and
+every generated one). `exempt` = rule ids whose hand-written code is outside the table model. -/
+def tablesWF (sp : Spec) (exempt : List Int) : Bool :=
+  sp.t.wf &&
+  decide (sp.t.dfa.size = numStates sp.t * sp.t.numSymbols.toNat) &&
+  decide (sp.t.scanBytes = sp.opts.scanBytes) &&
+  decide (0 ≤ invalidAct sp) && (tokenOf sp (invalidAct sp)).isSome &&
+  classMapInRange sp.cm sp.t.numSymbols &&
+  -- every final action in the table is usable
+  sp.t.dfa.all (fun e => decide (e > actionStart sp.t) || e == actionStart sp.t - invalidAct sp ||
+    actOk sp exempt (actionStart sp.t - e)) &&
+  sp.t.backtrack.all (fun bt => actOk sp exempt bt.action) &&
+  (startStates sp).all (startRowOk sp exempt) && !(startStates sp).isEmpty &&
+  (List.range (numStates sp.t)).all (fun s => (eoiChain sp.t (numStates sp.t + 1) s).isSome) &&
+  !sp.spaceActions.contains (invalidAct sp) &&
+  sp.classActions.all (fun (a, m) => !isInvalid sp a && keysNodup m && m.all fun (_, x) => actOk sp exempt x)
+
+/-- The symbol lookup of `Tables.Scan` and the generated class lookup agree on `[0, n)`. -/
+def classMapOkUpTo (sp : Spec) (n : Nat) : Bool :=
+  (List.range n).all fun r => symOf sp.t (r : Int) == some (classOf sp.cm (r : Int))
+
+/-- No `{eoi}` transitions: the EOI column holds final actions only (then `Tables.Scan`'s single EOI
+step is the whole story). -/
+def eoiFinal (t : Tables) : Bool :=
+  (List.range (numStates t)).all fun s =>
+    match getI t.dfa ((s : Int) * t.numSymbols) with
+    | none => false
+    | some e => decide (e ≤ actionStart t)
+
+/-! ## `parsers/tm/lexer_actions.go: skipAction` -/
+
+/-- `strings.Index(s, pat)` for a non-empty `pat`. -/
+def indexOf (pat : List UInt8) : List UInt8 → Option Nat
+  | [] => none
+  | b :: rest =>
+    if pat.isPrefixOf (b :: rest) then some 0 else (indexOf pat rest).map (· + 1)
+
+/-- `case '\n': l.line++` (the fixed code also sets `l.lineOffset = l.scanOffset`). -/
+def skipNewline (v : Variant) (l : Lexer) : Lexer :=
+  if v.skipFix then { l with line := l.line + 1, lineOffset := (l.scanOffset : Int) }
+  else { l with line := l.line + 1 }
+
+/-- The code after the `switch` (label `next:`), with `skipNext` already decided. -/
+def skipAdvance (o : Opts) (v : Variant) (skipNext : Bool) (l : Lexer) : Lexer :=
+  let l := { l with offset := l.scanOffset }
+  if l.offset < l.source.length then
+    let l := readCh o l
+    if skipNext then
+      let l := if v.skipFix && l.ch = 10 then skipNewline v l else l
+      readCh o { l with offset := l.scanOffset }
+    else l
+  else { l with ch := -1 }
+
+/-- `func (l *Lexer) skipAction() bool`: loop state `open`, `openQuote`. -/
+def skipLoop (o : Opts) (v : Variant) : Nat → Int → Int → Lexer → Option (Bool × Lexer)
+  | 0, _, _, _ => none
+  | fuel + 1, opn, quote, l =>
+    if opn ≤ 0 then some (true, l)
+    else if l.ch = -1 then some (false, l)
+    else if l.ch = 123 then skipLoop o v fuel (if quote = 0 then opn + 1 else opn) quote (skipAdvance o v false l)
+    else if l.ch = 125 then skipLoop o v fuel (if quote = 0 then opn - 1 else opn) quote (skipAdvance o v false l)
+    else if l.ch = 39 ∨ l.ch = 34 then
+      skipLoop o v fuel opn (if quote = 0 then l.ch else if l.ch = quote then 0 else quote) (skipAdvance o v false l)
+    else if l.ch = 92 then skipLoop o v fuel opn quote (skipAdvance o v (quote != 0) l)
+    else if l.ch = 47 then
+      if quote ≠ 0 ∨ l.scanOffset ≥ l.source.length then skipLoop o v fuel opn quote (skipAdvance o v false l)
+      else
+        match l.source.drop l.scanOffset with
+        | 42 :: rest =>
+          match indexOf [42, 47] rest with
+          | some e => skipLoop o v fuel opn quote (rewind o v l (e + l.scanOffset + 3))
+          | none => skipLoop o v fuel opn quote (skipAdvance o v false l)
+        | 47 :: rest =>
+          match indexOf [10] rest with
+          | some e => skipLoop o v fuel opn quote (rewind o v l (e + l.scanOffset + 2))
+          | none => skipLoop o v fuel opn quote (skipAdvance o v false l)
+        | _ => skipLoop o v fuel opn quote (skipAdvance o v false l)
+    else if l.ch = 10 then skipLoop o v fuel opn quote (skipAdvance o v false (skipNewline v l))
+    else skipLoop o v fuel opn quote (skipAdvance o v false l)
+
+/-- The options of `parsers/tm` (`tokenColumn = true`, rune mode). -/
+def tmOpts : Opts := ⟨true, false, true, false, true⟩
+
+/-- `l.skipAction()` entered with `open = 1`. -/
+def skipAction (v : Variant) (l : Lexer) : Option (Bool × Lexer) :=
+  skipLoop tmOpts v (l.source.length - l.offset + 2) 1 0 l
 
 end TmVerif.LexRun
